@@ -5,12 +5,6 @@ cd "$(dirname "$0")"
 export GOFLAGS=-mod=mod GOPROXY=off
 python3 lib/gen_main.py
 python3 lib/regen_all.py
-<<<<<<< HEAD
 (cd lean && lake build Dawgs dawgsmodel dawgsmodelg)
 python3 lib/build_harness.py
-=======
-(cd lean && lake build Dawgs dawgsmodel)
-cp /repo/go.sum harness/go.sum
-(cd harness && go build -tags verif -o bin/harness .)
->>>>>>> build-c13
 echo setup-ok
